@@ -159,7 +159,7 @@ def replay_compare_arms(viol):
             cases.append(("t(call(%s, %d, %d))" % (op, a, b), want))
             cases.append(("X is %d+0, Y is %d+0, t(X %s Y)" % (a, b, op), want))
     cases = sorted(set(cases))
-    return run_cases(CMP_PROGRAM, cases, {"model": viol}, "C04", "compare_arms")
+    return run_cases(CMP_PROGRAM, cases, {"model": viol}, "C04", "compare_arms", batch=True)
 
 
 # ---------------------------------------------------------------- C03
@@ -194,7 +194,7 @@ def replay_evaluators(diffs):
                     "B = err(EB)), ( A == B -> write(same) ; write(differ(A,B)) ), nl" % (n, n))
             cases.append((goal, "same"))
     program = EVAL_PROGRAM + "\n".join(clauses) + "\n"
-    return run_cases(program, cases, {"model": diffs}, "C03", "evaluators")
+    return run_cases(program, cases, {"model": diffs}, "C03", "evaluators", batch=True)
 
 
 # ---------------------------------------------------------------- C09
@@ -463,7 +463,7 @@ def replay_bignum_arms(viol):
             goal = ("A is %d + 2^80 - 2^80, B is %d + 2^80 - 2^80, X is %s, write(X), nl" % (
                 a, b, ("gcd(A,B)" if k == "gcd" else "A %s B" % sym)))
             cases.append((goal, str(want)))
-    return run_cases("", cases[:400], {"model": viol}, "C01", "bignum_arms")
+    return run_cases("", cases[:400], {"model": viol}, "C01", "bignum_arms", batch=True)
 
 
 IDX2_PROGRAM = """
@@ -562,7 +562,7 @@ def replay_number_comparisons(problems, prop="C04"):
     cases.append(("N is 2^60-2^60+2, functor(T, foo, N), show(T)", "foo(_A,_B)"))
     cases[-1] = ("N is 2^60-2^60+2, functor(T, foo, N), functor(T, F, A), show(F/A)", "foo/2")
     cases.append(("N is 2^60-2^60+0, functor(T, foo, N), show(T)", "foo"))
-    return run_cases(NUMCMP_PROGRAM, cases, {"model": problems[:6]}, prop, "number_comparisons")
+    return run_cases(NUMCMP_PROGRAM, cases, {"model": problems[:6]}, prop, "number_comparisons", batch=True)
 
 
 # ---------------------------------------------------------------- C13 (ParallelHeapIter arms)
